@@ -30,6 +30,7 @@ type c18Prog struct {
 	RKey    int     `json:"rkey"`    // other reader's link key (made different from wkey)
 	Appends []int   `json:"appends"` // pointer counts of a small log built with the writer key
 	Reopen  int     `json:"reopen"`  // loader used to reopen the log before appending again (index, mod 4)
+	Opts    int     `json:"opts"`    // CreateEntryOptions of a second write of the entry: bit 0 Pin, bit 1 PreSigned
 }
 
 func genC18(t *rapid.T) c18Prog {
@@ -41,6 +42,7 @@ func genC18(t *rapid.T) c18Prog {
 		RKey:    rapid.IntRange(0, 5).Draw(t, "rkey"),
 		Appends: rapid.SliceOfN(rapid.SampledFrom([]int{0, 1, 2, 4, 8, 16}), 1, 8).Draw(t, "appends"),
 		Reopen:  rapid.IntRange(0, 3).Draw(t, "reopen"),
+		Opts:    rapid.IntRange(0, 3).Draw(t, "opts"),
 	}
 }
 
@@ -113,6 +115,29 @@ func runC18(tb ev.TB, p c18Prog) ev.Result {
 	}
 	if err := e.Verify(provider, wio); err != nil {
 		tb.Fatalf("writer cannot verify its own entry: %v", err)
+	}
+	// the same entry written with other create options (pinned, hashed before signing): whatever block that
+	// write stores is opaque too, and a same-key reader recovers the same lists from it
+	if p.Opts != 0 {
+		os := fakeipfs.NewStore()
+		opts := &iface.CreateEntryOptions{Pin: p.Opts&1 != 0, PreSigned: p.Opts&2 != 0}
+		eo := createWith(tb, os, p.Entry, wio, opts)
+		for _, c := range os.Writes() {
+			braw, _ := os.Raw(c)
+			checkOpaque(tb, braw, all)
+		}
+		if do, err := entry.FromMultihashWithIO(ctx, os.API(), eo.GetHash(), provider, same); err != nil {
+			tb.Fatalf("same-key reader cannot decode the entry written with %+v: %v", *opts, err)
+		} else if !sameCids(do.GetNext(), e.GetNext()) || !sameCids(do.GetRefs(), e.GetRefs()) {
+			tb.Fatalf("same-key reader recovered next %v refs %v from the entry written with %+v, written next %v refs %v", do.GetNext(), do.GetRefs(), *opts, e.GetNext(), e.GetRefs())
+		} else if !opts.PreSigned {
+			if err := do.Verify(provider, same); err != nil {
+				tb.Fatalf("same-key reader cannot verify the entry written with %+v: %v", *opts, err)
+			}
+		}
+		if dn, err := entry.FromMultihashWithIO(ctx, os.API(), eo.GetHash(), provider, noio); err == nil && len(dn.GetNext())+len(dn.GetRefs()) != 0 {
+			tb.Fatalf("reader without a key obtained links from the entry written with %+v", *opts)
+		}
 	}
 	// no key
 	dn, err := entry.FromMultihashWithIO(ctx, st.API(), e.GetHash(), provider, noio)
@@ -245,6 +270,6 @@ func runC18(tb ev.TB, p c18Prog) ev.Result {
 
 func TestC18(t *testing.T) {
 	c := ev.Get("C18")
-	c.Rule = "rapid generates entries as in C08 (0-7 predecessors, 0-7 references incl. CIDv0/raw CIDs, binary payloads) written with one of 6 link keys, plus a small log (1-8 appends with pointer counts 0..16) written with that key. Oracles: the stored bytes contain no binary or textual form (raw CID bytes, multihash, digest, hex, base32/36/58/64 with and without multibase prefix) of any predecessor/reference or of any earlier block of the log and decode to a node without links; a reader holding the same key (separately constructed codec) recovers identical ordered lists, verifies, merges and loads the whole log; readers with no key or another key get an error or empty lists and load at most the entry itself. Non-trivial = entry with >= 1 predecessor and >= 1 reference; distinct = distinct program."
+	c.Rule = "rapid generates entries as in C08 (0-7 predecessors, 0-7 references incl. CIDv0/raw CIDs, binary payloads) written with one of 6 link keys (and written again with generated create options: pinned and/or hashed before signing), plus a small log (1-8 appends with pointer counts 0..16) written with that key. Oracles: the stored bytes contain no binary or textual form (raw CID bytes, multihash, digest, hex, base32/36/58/64 with and without multibase prefix) of any predecessor/reference or of any earlier block of the log and decode to a node without links; a reader holding the same key (separately constructed codec) recovers identical ordered lists, verifies, merges and loads the whole log; readers with no key or another key get an error or empty lists and load at most the entry itself. Non-trivial = entry with >= 1 predecessor and >= 1 reference; distinct = distinct program."
 	ev.Check(t, "C18", genC18, runC18)
 }
